@@ -1202,6 +1202,10 @@ func (vx *Vaxis) sendQueries() {
 	// Explicit width query
 	_, _ = vx.tw.WriteString("\x1b[H")
 	_, _ = fmt.Fprintf(vx.tw, explicitWidth, 1, " ")
+	// CursorPosition writes its query straight to the console: the probe
+	// has to be on the wire before it, or the reply reflects the cursor as
+	// it was before the probe
+	_, _ = vx.tw.Flush()
 	_, col := vx.CursorPosition()
 	if col == 1 {
 		log.Debug("[capability] explicit width supported")
